@@ -399,6 +399,11 @@ def run(ctx):
     ctx.attempt(projector_rule, ctx, lib)
     ctx.attempt(reflection_orientation_rule, ctx, lib)
     ctx.attempt(evaluation_order_rule, ctx, lib)
+    ctx.attempt(distorted_selection_rule, ctx, lib)
+    from .c07 import weighted_jacobian_rule as _weighted_jacobian_rule
+
+    # 'the measure ... is unchanged by ... reflection': |det F| * w, orientation-free
+    ctx.attempt(_weighted_jacobian_rule, ctx, "R8.21")
 
 
 def candidate_order_rule(ctx):
@@ -1088,3 +1093,67 @@ def evaluation_order_rule(ctx, lib):
             r.fail(fE.qualname, f"order:{label}", fE.file, fE.lineno, "Mesh.Evaluate_dofsValues_at_coordinates", f"unit square, triangles (0,1,2) and (0,2,3), linear nodal field a + b x + c y, candidate elements {el} ({label}): {bad}: a point shared by two elements takes its reference coordinates in one of them and its nodal values in the other")
         else:
             r.ok(f"candidate elements {label}: linear field reproduced at {len(pts)} points")
+
+
+def distorted_selection_rule(ctx, lib):
+    """R8.20: '... as well as on general (non-parallelogram) quadrangles ..., before and after the mesh is moved or
+    mirrored': the closed-form inverse map xi0 + (x - x0) inv(F) is exact on affine elements only (R8.8); every element whose
+    Jacobian varies must take the iterative inversion, whatever its ORIENTATION (after Mesh.Symmetry det F < 0 everywhere).
+    _Get_Mapping is interpreted on one general QUAD4, as meshed and mirrored, for a query point x(xi*) with xi* rational;
+    the numerical solver is replaced by an exact oracle (it returns xi*): the reference coordinates handed back must be
+    xi*, which the affine shortcut cannot produce on this element."""
+    from types import SimpleNamespace
+
+    from ..femchain import fe_hook_full
+
+    repo = ctx.repo
+    ge = repo.cls(GE)
+    r = ctx.rule("R8.20", "inverse map of a distorted QUAD4: the exact reference coordinates are returned for the element as meshed and mirrored (the iterative inversion is selected for both orientations)", min_instances=2)
+    ed = lib.get("QUAD4")
+    Ns = [ed.tables["N"][1][i, 0] for i in range(4)]
+    f = repo.lookup_method(ed.cls, "_Get_Mapping")
+    gp = [(Q(-1, 2), Q(-1, 2)), (Q(1, 2), Q(-1, 2)), (Q(1, 2), Q(1, 2)), (Q(-1, 2), Q(1, 2))]
+    xi_star = (Q(1, 3), Q(2, 5))  # not on the curve (xi + eta) / 2 + xi eta = 0 where the affine shortcut about the first Gauss point happens to be exact
+    for label, mirror in (("as meshed", False), ("mirrored (x -> -x)", True)):
+        r.instance(fn=f.qualname)
+        obj = lib.make_obj("QUAD4")
+        a = obj.attrs
+        quad = [(Q(0), Q(0)), (Q(2), Q(1, 4)), (Q(9, 4), Q(2)), (Q(-1, 3), Q(3, 2))]
+        if mirror:
+            quad = [(-x, y) for x, y in quad]
+        coords = [[x, y, Q(0)] for x, y in quad]
+        connect = XArray((1, 4), [0, 1, 2, 3], "i")
+        a.update(Ne=1, Nn=4, Ncoords=4, connect=connect, coord=XArray.from_nested(coords), inDim=2, _global_to_local_nodes=XArray((4,), [0, 1, 2, 3], "i"), nodes=XArray((4,), [0, 1, 2, 3], "i"))
+        a[ge.mangle("__connect")] = connect
+        a[ge.mangle("__coord")] = a["coord"]
+        a[ge.mangle("__dim")] = 2
+        a["Get_gauss"] = lambda mt=None: SimpleNamespace(coord=XArray((4, 2), [v for p in gp for v in p]), weights=XArray((4,), [Q(1)] * 4), nPg=4)
+        everything = lambda cn, *x, **k: XArray((XArray.from_nested(cn).shape[0],), list(range(XArray.from_nested(cn).shape[0])), "i")
+        a["Get_pointsInElem"] = everything
+        a["_Get_coord_Near"] = everything
+        env = dict(zip(ed.vars, xi_star))
+        xP = [sum((Ns[n].eval(env) * quad[n][k] for n in range(4)), Q(0)) for k in range(2)]
+        calls = []
+
+        def hook(fn, args, kwargs):
+            if isinstance(fn, Opaque) and fn.tag.endswith("least_squares"):
+                calls.append(1)
+                return SimpleNamespace(x=XArray((2,), list(xi_star)))
+            fi = fn if isinstance(fn, FuncInfo) else getattr(fn, "finfo", None)
+            if isinstance(fi, FuncInfo) and fi.module.name.startswith("EasyFEA.Utilities") and fi.name in ("Tic", "Tac", "_CheckIsVector"):
+                return Sink()
+            return fe_hook_full(fn, args, kwargs)
+
+        I = Interp(repo)
+        I.call_hook = hook
+        try:
+            out = I.call_function(f, [XArray((1, 3), [xP[0], xP[1], Q(0)]), XArray((1,), [0], "i"), True], self_obj=obj)
+        except XRaise as e:
+            r.fail(f.qualname, f"distorted:{label}", f.file, f.lineno, "_GroupElem._Get_Mapping", f"general QUAD4 {label}: raises {e}")
+            continue
+        xi = XArray.from_nested(out[3])
+        got = [xi[0, k] for k in range(2)]
+        if all(is_zero(Poly.of(g) - w) for g, w in zip(got, xi_star)):
+            r.ok(f"general QUAD4 {label}: xi* recovered ({'iterative inversion' if calls else 'closed form'})")
+        else:
+            r.fail(f.qualname, f"distorted:{label}", f.file, f.lineno, "_GroupElem._Get_Mapping", f"general QUAD4 {label}, query point x(xi*) with xi* = {tuple(str(v) for v in xi_star)}: reference coordinates {tuple(str(g) for g in got)} are returned ({'the iterative inversion was not selected: ' if not calls else ''}the affine closed form is not the inverse map of a distorted element): a nodal field of the element's order is not reproduced there")
